@@ -287,7 +287,7 @@ def gen_mesh_layout():
 # images
 # ------------------------------------------------------------------------------------------
 IFIELDS = ['width', 'height', 'depth_or_array_layers', 'dimensions', 'format', 'data']
-DIMS = ['D1', 'D2', 'D3']
+DIMS = ['D1', 'D2', 'D3']     # TextureDimension::Dn is written Dimn (D1.. clash with Coq's Decimal digits once extracted)
 ISRC_ENC = {'image.texture_descriptor.size.width': 'ISrcWidth', 'image.texture_descriptor.size.height': 'ISrcHeight',
             'image.texture_descriptor.size.depth_or_array_layers': 'ISrcDepth',
             'image.texture_descriptor.format': 'ISrcFormat', 'image.data.clone()': 'ISrcData'}
@@ -315,7 +315,7 @@ def gen_image_layout():
         am = re.fullmatch(ws(r'TextureDimension::(\w+) => (\d+)'), a)
         if not am:
             raise TranslateError('image_to_bin: dimension arm `%s` not understood' % a)
-        dim_enc.append((known(am.group(1), DIMS, 'dimension'), int(am.group(2))))
+        dim_enc.append(('Dim' + known(am.group(1), DIMS, 'dimension')[1:], int(am.group(2))))
     if len({k for k, _ in dim_enc}) != len(dim_enc):
         raise TranslateError('image_to_bin: duplicate dimension arm')
     enc_sources = []
@@ -346,9 +346,9 @@ def gen_image_layout():
         if dim_default is not None:
             raise TranslateError('bin_to_image: arm after the wildcard')
         if am.group(1) == '_':
-            dim_default = known(am.group(2), DIMS, 'dimension')
+            dim_default = 'Dim' + known(am.group(2), DIMS, 'dimension')[1:]
         else:
-            dim_dec.append((int(am.group(1)), known(am.group(2), DIMS, 'dimension')))
+            dim_dec.append((int(am.group(1)), 'Dim' + known(am.group(2), DIMS, 'dimension')[1:]))
     if dim_default is None:
         raise TranslateError('bin_to_image: dimension match has no wildcard arm')
     if len({k for k, _ in dim_dec}) != len(dim_dec):
